@@ -1,7 +1,12 @@
 package checks
 
 import (
+	"encoding/json"
+	"fmt"
+	"github.com/vektah/gqlparser/v2/ast"
+	"github.com/vektah/gqlparser/v2/parser"
 	"math/rand"
+	"strings"
 
 	"verif/harness/core"
 )
@@ -23,6 +28,7 @@ func checkC06(c *core.Ctx) {
 	gen := &SGen{Q: &QGen{MaxDepth: 2}}
 	runGrammarCheck(c, schemaBind(), GrammarPlan{
 		PrinterKind: "schemadoc",
+		HandTexts:   nestedListSchemaTexts,
 		DevNames:    map[string]bool{"EmptySchemaDocument": true, "BareSchema": true, "NoIfaceExtImplements": true, "EnumValueKeyword": true},
 		Invs:        "Nesting NoVariables TypeOK",
 		MaxTok:      [2]int{5, 6}, Cover: [2]int{11, 14}, NDocs: [2]int{400, 6000},
@@ -35,4 +41,114 @@ func checkC06(c *core.Ctx) {
 			return doc, UnparseSchema(doc, rng), gen.Q.ConstFault
 		},
 	})
+	if !c.HasInternal() {
+		builtInSources(c)
+	}
+}
+
+// builtInSources: lists of sources in one call, built-in ones at every position (BuiltIn_Trace)
+func builtInSources(c *core.Ctx) {
+	n := 60
+	if c.Thorough() {
+		n = 1500
+	}
+	rng := rand.New(rand.NewSource(c.Seed*15485863 + 6))
+	gen := &SGen{R: rng, Q: &QGen{R: rng, MaxDepth: 2}}
+	var pool []string
+	for len(pool) < 40 {
+		t := RenderIgnored(UnparseSchema(gen.Doc(), rng), rng)
+		if _, err := parser.ParseSchema(&ast.Source{Input: t}); err == nil && len(t) < 600 {
+			pool = append(pool, t)
+		}
+	}
+	type defRec struct {
+		Name    string `json:"name"`
+		Src     int    `json:"src"`
+		Flag    bool   `json:"flag"`
+		SrcFlag bool   `json:"srcflag"`
+	}
+	var lines [][]byte
+	var events []int64
+	descs := map[int]string{}
+	for id := 1; id <= n; id++ {
+		k := 2 + rng.Intn(3)
+		var srcs []*ast.Source
+		var parts [][]GTc
+		var desc []string
+		for j := 0; j < k; j++ {
+			src := &ast.Source{Name: fmt.Sprintf("s%d.graphql", j), Input: pool[rng.Intn(len(pool))], BuiltIn: rng.Intn(2) == 0}
+			srcs = append(srcs, src)
+			alone, err := parser.ParseSchema(&ast.Source{Name: src.Name, Input: src.Input, BuiltIn: src.BuiltIn})
+			if err != nil {
+				c.Internal("pool text does not parse")
+				return
+			}
+			parts = append(parts, toGTc(schemaNorm(ProjectSchemaDoc(alone))))
+			desc = append(desc, fmt.Sprintf("%s(builtin=%v)=%q", src.Name, src.BuiltIn, clip(src.Input, 120)))
+		}
+		var doc *ast.SchemaDocument
+		var err error
+		entry := "ParseSchemas"
+		func() {
+			defer guard("parser.ParseSchemas", strings.Join(desc, " | "))()
+			if id%2 == 0 {
+				entry = "ParseSchemasWithLimit(0, ...)"
+				doc, err = parser.ParseSchemasWithLimit(0, srcs...)
+			} else {
+				doc, err = parser.ParseSchemas(srcs...)
+			}
+		}()
+		if err != nil || doc == nil {
+			c.Violation(fmt.Sprintf("%s rejects a list of sources each of which parses alone: %v; %s", entry, err, strings.Join(desc, " | ")), map[string]any{"sources": sourcesJSON(srcs)})
+			continue
+		}
+		defs := []defRec{}
+		idx := func(p *ast.Position) (int, bool) {
+			if p == nil || p.Src == nil {
+				return 0, false
+			}
+			for j, s := range srcs {
+				if s == p.Src {
+					return j + 1, s.BuiltIn
+				}
+			}
+			return 0, false
+		}
+		for _, d := range doc.Definitions {
+			j, f := idx(d.Position)
+			defs = append(defs, defRec{d.Name, j, d.BuiltIn, f})
+		}
+		for _, d := range doc.Extensions {
+			j, f := idx(d.Position)
+			defs = append(defs, defRec{"extend " + d.Name, j, d.BuiltIn, f})
+		}
+		b, _ := json.Marshal(map[string]any{"id": id, "parts": parts, "merged": toGTc(schemaNorm(ProjectSchemaDoc(doc))), "defs": defs})
+		lines = append(lines, b)
+		events = append(events, int64(len(defs)))
+		descs[id] = entry + ": " + strings.Join(desc, " | ")
+	}
+	cfg := "SPECIFICATION Spec\nCONSTANTS\n  LexDevs = {}\n  GrammarDevs = {}\nCHECK_DEADLOCK FALSE\n"
+	bad, ok := RunTrace(c, TraceJob{Module: "BuiltIn_Trace", CfgText: cfg, Lines: lines, Events: events, Shards: 8, Stack: "256m"})
+	if !ok {
+		return
+	}
+	c.Count(int64(len(lines)), int64(len(lines)), int64(len(lines)))
+	c.Logf("BuiltIn_Trace: %d lists of sources validated, %d disagreements", len(lines), len(bad))
+	for _, raw := range bad {
+		var b struct {
+			ID    int    `json:"id"`
+			Class string `json:"class"`
+			At    string `json:"at"`
+		}
+		json.Unmarshal(raw, &b)
+		c.Violation(fmt.Sprintf("%s (%s): %s", b.Class, b.At, descs[b.ID]), map[string]any{"what": b.Class, "at": b.At, "case": descs[b.ID]})
+	}
+}
+
+// constant values with lists nested at every position, after earlier lists of the same document
+var nestedListSchemaTexts = []string{
+	`type T { f(ids: [Int] = [7, 8, 9], grid: [[Int]] = [[1], [2, 3], []], mixed: [In] = [{x: 1}, {xs: [7, 8]}, {x: 3}]): Int @window(rows: [[0, 1], [2, 3]]) }`,
+	`directive @d(a: [[Int]] = [[1, 2], [3, [4, [5]]], 6]) on OBJECT input In { a: [Int] = [1] b: [[Int]] = [[2], [3]] c: [[[Int]]] = [[[4]], [[5], [6]]] }`,
+	`scalar S @d(a: [1, 2]) @d(a: [[3], [4]]) @d(a: [{k: [5]}, {k: [[6], [7]]}]) extend scalar S @d(a: [[], [[]], [[], []]])`,
+	`enum E @d(a: ["a", ["b", "c"], [["d"]]]) { A @d(a: [[A], [B, [C]]]) B }`,
 }
